@@ -30,7 +30,7 @@ ASSUMPTIONS = [
     "composite clauses are judged for composites whose elements share one labeling (m*n and m+m' over equal label arrays)",
     "pre-selected targets are existing non-negative labels",
 ]
-REQUIRED = {"single_fail_veto_under_constraint": 100, "composite_calls_with_preselected_elements": 300, "single_calls": 3000, "single_success": 1500, "single_fail_no_eligible": 100, "single_fail_veto": 100, "composite_calls": 1500, "composite_partial": 100, "preselected_calls": 300, "molecule_moves": 500, "negative_label_rows_watched": 1000}
+REQUIRED = {"relabelled_live_moves": 100, "single_fail_veto_under_constraint": 100, "composite_calls_with_preselected_elements": 300, "single_calls": 3000, "single_success": 1500, "single_fail_no_eligible": 100, "single_fail_veto": 100, "composite_calls": 1500, "composite_partial": 100, "preselected_calls": 300, "molecule_moves": 500, "negative_label_rows_watched": 1000}
 SHARD_TIMEOUT = {"quick": 900, "thorough": 3000}
 
 CALC_LOG: list = []
@@ -331,7 +331,13 @@ def run(spec):
         try:
             if mode < 0.5:
                 m = new_move()
-                for _ in range(3):
+                for rep in range(3):
+                    if rep == 1 and rng.random() < 0.3:
+                        # the particles re-labelled on the live move through the documented set_labels(): every clause
+                        # again with the new labelling
+                        labels = gen_labels(rng, n)
+                        m.set_labels(labels.copy())
+                        rec.count("relabelled_live_moves")
                     nn = labels[labels >= 0]
                     if len(nn) and rng.random() < 0.3:
                         m.to_displace_labels = int(rng.choice(nn))
